@@ -663,10 +663,15 @@ func TestHarness(t *testing.T) {
 		slow := rng.Chance(1, 7)
 		holds := !slow && (rng.Chance(1, 8) || (o.Prop == "C04" && rng.Chance(1, 4)))
 		r.noModel = slow || holds
+		// and a share of the model-compared histories suspends woken-up workers too (hold=1 only)
+		mholds := !r.noModel && rng.Chance(1, 6)
+		r.modelHolds = mholds
 		if slow {
 			lines = append([]string{"0 mode monitor slow"}, lines...)
 		} else if holds {
 			lines = append([]string{"0 mode monitor"}, lines...)
+		} else if mholds {
+			lines = append([]string{"0 mode modelholds"}, lines...)
 		}
 		synctest_run(t, r, func() {
 			for _, l := range lines {
@@ -678,6 +683,20 @@ func TestHarness(t *testing.T) {
 					for c := range r.w.sending {
 						l = fmt.Sprintf("0 sendrel %d", c)
 						break
+					}
+				}
+				if mholds {
+					// while a hold is active the clock stands still: a timer of a suspended call that fires
+					// is consumed by nobody, which the model's "touch" segment cannot express
+					if r.w.clk.holding() {
+						l = "0" + l[strings.Index(l, " "):]
+						if strings.Contains(l, " wcancel ") {
+							// (the suspended call has already chosen its wake-up over the cancellation)
+							l = "0 touch"
+						}
+					}
+					if rng.Chance(1, 4) && !strings.Contains(l, " drain- ") && !strings.Contains(l, " wcancel ") {
+						l += " hold=1"
 					}
 				}
 				if holds && rng.Chance(1, 4) {
@@ -711,6 +730,12 @@ func TestHarness(t *testing.T) {
 		}
 		if holds {
 			res.Count("history-monitor-only-held-wakeups")
+		}
+		if mholds {
+			res.Count("history-model-compared-held-wakeups")
+			if r.flags["deferred-continuation"] {
+				res.Count("history-model-compared-with-a-deferred-worker-continuation")
+			}
 		}
 		if r.tie {
 			res.Count("history-discarded-cleanup-tie")
